@@ -196,6 +196,14 @@ def run(chk):
             chk.check(any(isinstance(x, ast.Assign) and dotted(x.targets[0]) == "self._error" for x in owner.body), "R5", f"{CL}:{C}.read | error flagged", rd.loc(t.ast), "")
         g = [(src(e), p) for e, p in ff.facts_at(t.ast)]
         chk.check(("self.crc_supported", True) in g and ("self._done", True) in g, "R5", f"{CL}:{C}.read | compared when the transfer is complete", rd.loc(t.ast), f"{g}")
+        # the flag that guards the comparison is set before it on the last segment: a store of _done after the comparison means the
+        # guard is still False when the last segment passes, and the checksum is never compared
+        dstores = [ff.cfg.node_of(x) for x in attr_stores(rd.node, "_done")]
+        before = [d for d in dstores if t in ff.cfg.reach_from(d)]
+        late = [d for d in dstores if d in ff.cfg.reach_from(t) and d not in before]
+        chk.check(bool(before) and not late, "R5", f"{CL}:{C}.read | done is set before the checksum is compared", rd.loc(late[0].ast) if late else rd.loc(t.ast),
+                  f"`{src(late[0].ast)}` runs after the comparison guarded by `self._done`: on the last segment the guard is still false, so a wrong checksum is never noticed" if late
+                  else "no store of _done precedes the comparison")
         # the comparison lies on every path to the final return when crc is on and done
         for r in rets:
             wit = must_pass(ff.cfg, lambda n: n is t, to_nodes=[ff.cfg.node_of(r)],
